@@ -42,7 +42,10 @@ def run_unit(unit_name, defines=(), canary=None, seed=0, rlimit=None, tag='main'
 def _run_unit(unit_name, defines=(), canary=None, seed=0, rlimit=None, tag='main', timeout=900, drop_hints=()):
     """returns dict(status, failures, verified, errors, time_s, out_path, meta)"""
     upath = os.path.join(VERIF, 'vx', 'units', unit_name + '.vu')
-    opath = os.path.join(OUT, 'units', '%s__%s.rs' % (unit_name, tag))
+    # one directory per check process: concurrent checks of different properties share units, not output files
+    rundir = os.path.join(OUT, 'units', 'run-%d' % os.getpid()) if os.environ.get('VERIF_SHARED_OUT') != '1' else os.path.join(OUT, 'units')
+    os.makedirs(rundir, exist_ok=True)
+    opath = os.path.join(rundir, '%s__%s.rs' % (unit_name, tag))
     res = {'unit': unit_name, 'tag': tag, 'defines': list(defines), 'canary': canary, 'out_path': opath}
     t0 = time.time()
     try:
